@@ -14,7 +14,10 @@ UNITS = r"SimTKmath/Integrators/src/[A-Za-z0-9]+\.cpp$"
 HDR = r"SimTKmath/Integrators/src/.*\.h$"
 PIPE = ["prescribeQ", "realizePosition", "projectQ", "prescribeU", "realizeVelocity", "projectU"]
 NOPROJ = ["prescribeQ", "realizePosition", "prescribeU", "realizeVelocity"]
-WRITE_QY = ("updY", "updQ", "setY", "setQ", "updTime", "setTime")
+WRITE_QY = ("updY", "updQ", "setY", "setQ")
+WRITE_T = ("updTime", "setTime")
+# functions in which a bare time write re-assigns the time the state already has (value reasoning, tabled)
+TIME_WRITE_SAME_VALUE = {"SimTK::CPodesIntegratorRep::stepTo": "on these branches tret is the time last returned / the current time (tMax == getState().getTime())"}
 WRITE_U = ("updU", "setU")
 # known finding key (DESIGN section 5, F6)
 KF = "ORDER:SimTK::AbstractIntegratorRep::attemptDAEStep:return-before-projection"
@@ -67,6 +70,10 @@ class Pipe:
             return ("write", "qy")
         if n.startswith("SimTK::State::") and short in WRITE_U and self.is_state(call_obj(e)):
             return ("write", "u")
+        if n.startswith("SimTK::State::") and short in WRITE_T and self.is_state(call_obj(e)):
+            return None if self.fn.name in TIME_WRITE_SAME_VALUE else ("write", "qy")
+        if n == "SimTK::State::operator=" and e.get("op") == "=" and self.is_state(e["x"][2]):
+            return ("write", "qy")
         if short in self.summ:
             s = self.summ[short]
             if s.get("arg") is None or (a and self.is_state(a[s["arg"]])):
@@ -162,6 +169,7 @@ def run(chk, tier, overlays=()):
     interpolation(chk, P, summaries)
     cpodes(chk, P, summaries)
     initialize(chk, P, summaries)
+    all_writers(chk, P, summaries)
     chk.floor("ORDER", 20)
     chk.floor("HELPER", 8)
 
@@ -332,6 +340,52 @@ def interpolation(chk, P, summ):
                           "even without projection the interpolated state is prescribed and realized through Velocity", bad_np[0][2] if bad_np else None)
 
 
+WRITER_EXEMPT = {
+    "setAdvancedState": "primitive setter; its callers are checked",
+    "setAdvancedStateAndRealizeKinematics": "helper verified in HELPER (prescribes q, realizes Position; projection is its caller's job)",
+    "setAdvancedStateAndRealizeDerivatives": "helper verified in HELPER",
+    "attemptODEStep": "intermediate ODE stages; the final state is checked by final-state-prescribed and the enclosing attemptDAEStep",
+    "attemptDAEStep": "checked above with accepting-return semantics",
+    "createInterpolatedState": "checked above", "backUpAdvancedStateByInterpolation": "checked above",
+}
+
+
+# functions whose advanced-state writes need only part of the pipeline, with the reason
+WRITER_LEVEL = {
+    "SimTK::CPodesIntegratorRep::stepTo": (2, "the y written here comes out of cpodes->step(), already projected by the registered projection callback "
+                                              "(checked by the CPodes ORDER rule); it must still be prescribed and realized (setAdvancedStateAndRealizeKinematics)"),
+}
+
+
+def all_writers(chk, P, summ):
+    """Any other integrator method that overwrites the advanced state (directly or by State assignment) must complete the pipeline
+    before every normal return: the advanced state is what is propagated through the rest of the trajectory."""
+    n = 0
+    for f in sorted(P.all_fns(), key=lambda f: f.id):
+        if not (f.cls and f.cls.endswith("IntegratorRep")):
+            continue
+        short = f.name.split("::")[-1]
+        if short in WRITER_EXEMPT:
+            continue
+        sv = {v for v in statevars_of(f, names=("updAdvancedState",))} | {"updAdvancedState", "advancedState"}
+        pipe = Pipe(P, f, sv, summ)
+        writes = [(b, i, e) for b, i, e in f.calls() if isinstance(pipe.classify(e), tuple) and pipe.classify(e)[0] == "write"]
+        writes += [(b, i, e) for b, i, e in f.calls() if e.get("fn", "").split("::")[-1] in ("setAdvancedState",)]
+        if not writes:
+            continue
+        n += 1
+        s2 = dict(summ)
+        s2["setAdvancedState"] = dict(k=0, arg=None)
+        pipe = Pipe(P, f, sv, s2)
+        # start "complete": the state the function received is on the manifold; only its own writes create obligations
+        need, why = WRITER_LEVEL.get(f.name, (len(PIPE), ""))
+        bad = run_automaton(f, pipe, PIPE[:need], need, lambda b, e: True)
+        chk.judge(not bad, "ORDER", f.name + ":advanced-state-writes-projected", f.loc,
+                  "%s overwrites the advanced state and can return without the prescribe/realize/project pipeline (reached only %s)" %
+                  (short, [PIPE[:x[1]] for x in bad][:1]), bad[0][2] if bad else None)
+    chk.judge(n >= 1, "ORDER", "advanced-state-writers-found", "", "other writers of the advanced state examined: %d" % n)
+
+
 def cpodes(chk, P, summ):
     cands = [f for f in P.all_fns() if f.name.endswith("CPodesSystemImpl::project")]
     chk.judge(len(cands) == 1, "ORDER", "CPodes:project-callback", "", "CPodes projection callback found")
@@ -365,6 +419,9 @@ _S2 = "SimTKmath/Integrators/src/SemiExplicitEuler2Integrator.cpp"
 _RKM = "SimTKmath/Integrators/src/RungeKuttaMersonIntegrator.cpp"
 _CP = "SimTKmath/Integrators/src/CPodesIntegrator.cpp"
 MUTATIONS = [
+    dict(name="seeded (sub-agent): event localisation adopts the interpolated state as advanced state", file=_A,
+         old="        backUpAdvancedStateByInterpolation(tHigh);\n        // Failure to realize here", new="        if (sidePrevIter < 0 && getInterpolatedState().getTime() == tHigh)\n            updAdvancedState() = getInterpolatedState();\n        else\n            backUpAdvancedStateByInterpolation(tHigh);\n        // Failure to realize here",
+         expect="takeOneStep:advanced-state-writes-projected"),
     dict(name="default DAE step skips velocity projection", arm=True, file=_A,
          old="    if (!localProjectUAndUErrEstNoThrow(advanced, yErrEst, anyChanges,\n                                        projectionLimit))\n        return false; // convergence failure for this step\n\n    // ODE step and projection",
          new="    // ODE step and projection", expect="ORDER:SimTK::AbstractIntegratorRep::attemptDAEStep:return-before-projectU"),
